@@ -993,7 +993,7 @@ def explore(ctx, rep, rng, tier):
         rep.count(("case", key), nontrivial=nontrivial)
         rep.dist("class", cls)
         rep.dist("mode", cfg["mode"] + ("+deref" if cfg["deref"] else "") + ("+pw" if cfg["pw"] else "") +
-                 ("" if cfg["entry"] == "api" else "+" + cfg["entry"]))
+                 ("" if cfg["entry"] == "api" else "+" + cfg["entry"]) + ("+nopath" if cfg.get("xnone") else ""))
         rep.dist("nodes", min(st.get("nodes", 0) // 5 * 5, 60))
         rep.dist("depth", st.get("depth", 0))
         rep.dist("links", min(st.get("links", 0), 6))
